@@ -295,6 +295,70 @@ func firstPanicLine(s string) string {
 	return ""
 }
 
+// runConcurrentLayer runs the concurrent-delivery layer in its own child process and turns a crash of that
+// process, or a recovered panic / unbounded state reported by it, into violations.
+func runConcurrentLayer(run *hx.Run) {
+	t0 := time.Now()
+	cmd := exec.Command(os.Args[0], "--c37conc", fmt.Sprint(run.Seed), run.Tier)
+	var so, se bytes.Buffer
+	cmd.Stdout, cmd.Stderr = &so, &se
+	err := cmd.Start()
+	if err != nil {
+		panic(err)
+	}
+	done := make(chan error, 1)
+	go func() { done <- cmd.Wait() }()
+	limit := 150 * time.Second
+	if run.Thorough() {
+		limit = 12 * time.Minute
+	}
+	select {
+	case err = <-done:
+	case <-time.After(limit):
+		_ = cmd.Process.Kill()
+		<-done
+		run.Violate(hx.Violation{Sig: "hang:concurrent-layer", Detail: "the concurrent-delivery child did not finish", Case: map[string]interface{}{"layer": "concurrent", "seed": run.Seed}})
+		return
+	}
+	seen := ""
+	for _, line := range strings.Split(so.String(), "\n") {
+		var r concResult
+		if json.Unmarshal([]byte(line), &r) != nil || r.Scenario == "" {
+			continue
+		}
+		seen = r.Scenario
+		run.OracleChecked(r.Deliveries)
+		run.HistN("concurrent."+r.Scenario+".deliveries", r.Deliveries)
+		run.HistN("concurrent."+r.Scenario+".rounds", r.Rounds)
+		if r.Hangs > 0 {
+			run.HistN("concurrent."+r.Scenario+".handlers-not-returned-in-time", r.Hangs)
+			run.Note(fmt.Sprintf("concurrent layer %s: %d round(s) with a handler still running at the timeout", r.Scenario, r.Hangs))
+		}
+		if r.Panics > 0 {
+			run.Violate(hx.Violation{Sig: "panic:" + r.Scenario, Detail: fmt.Sprintf("%d handler panic(s) under concurrent delivery (%d deliveries, %d rounds): %s", r.Panics, r.Deliveries, r.Rounds, r.First),
+				Case: map[string]interface{}{"layer": "concurrent", "scenario": r.Scenario, "seed": run.Seed, "trace": r.First}, Impl: "panic", Want: "no panic under any interleaving of the streams"})
+		}
+	}
+	stderr := se.String()
+	if err != nil || strings.Contains(stderr, "panic:") || strings.Contains(stderr, "fatal error:") {
+		// the process died: attribute to the scenario that was running (the one after the last reported)
+		next := map[string]string{"": "chunkinfo:concurrent-resp", "chunkinfo:concurrent-resp": "hive2:concurrent-findnode", "hive2:concurrent-findnode": "routetab:concurrent-route",
+			"routetab:concurrent-route": "retrieval:concurrent-requests", "retrieval:concurrent-requests": "multicast:concurrent-mix", "multicast:concurrent-mix": "after-all"}[seen]
+		tr := stderr
+		if i := strings.Index(tr, "panic:"); i >= 0 {
+			tr = tr[i:]
+		} else if i := strings.Index(tr, "fatal error:"); i >= 0 {
+			tr = tr[i:]
+		}
+		if len(tr) > 3000 {
+			tr = tr[:3000]
+		}
+		run.Violate(hx.Violation{Sig: "panic:" + next, Detail: "the concurrent-delivery child process died (panic outside a handler goroutine or fatal runtime error): " + firstPanicLine(stderr),
+			Case: map[string]interface{}{"layer": "concurrent", "scenario": next, "seed": run.Seed, "trace": tr}, Impl: "process death", Want: "no panic under any interleaving of the streams"})
+	}
+	run.SetExtra("concurrent_layer_s", float64(int(time.Since(t0).Seconds()*10))/10)
+}
+
 // ---------------------------------------------------------------- child
 
 func childMain() {
@@ -337,17 +401,32 @@ func main() {
 			childMain()
 			return
 		}
+		if a == "--c37conc" { // --c37conc <seed> <tier>
+			var seed uint64
+			fmt.Sscanf(os.Args[len(os.Args)-2], "%d", &seed)
+			concMain(seed, os.Args[len(os.Args)-1] == "thorough")
+			return
+		}
 	}
 	run := hx.Start("C37", "Aurora.C37.Corr",
 		"per handler: (1) corpus = witnesses of every repaired panic, (2) structured messages: every subset of optional sub-messages absent x each bytes/repeated field {valid, empty, short, oversized, inconsistent with node state}, marshalled with the real protobuf encoder, (3) raw malformed byte strings (random, framed garbage, bad length prefixes, mutated valid frames); driven through pkg/p2p/streamtest against the real handler or client read; non-trivial = structured case that reaches the code after the message was decoded; distinct by (handler, scenario, message)")
 
 	var cases []*Case
+	concReplay := false
 	if run.Replay != "" {
-		var c Case
-		if err := run.ReadReplay(&c); err != nil {
-			panic(err)
+		var probe struct {
+			Layer string `json:"layer"`
 		}
-		cases = []*Case{&c}
+		_ = run.ReadReplay(&probe)
+		if probe.Layer == "concurrent" { // replay of a concurrent-layer finding: re-run that layer with the recorded seed
+			concReplay = true
+		} else {
+			var c Case
+			if err := run.ReadReplay(&c); err != nil {
+				panic(err)
+			}
+			cases = []*Case{&c}
+		}
 	} else {
 		cases = generate(run)
 	}
@@ -381,6 +460,9 @@ func main() {
 		if o.Aux["unattributed_crash"] != 0 {
 			run.Violate(hx.Violation{Sig: c.H + ":crash-unattributed", Detail: "child process died near this case; not reproduced alone", Case: c})
 		}
+	}
+	if run.Replay == "" || concReplay {
+		runConcurrentLayer(run)
 	}
 	names := make([]string, 0, len(perHandler))
 	for k := range perHandler {
